@@ -164,4 +164,34 @@ theorem part_getter (rows columns : Nat) (rp cp : List Nat) (kr kc : Nat)
         rw [List.getElem?_eq_none]; omega
       simp [idxC, this] at hev
 
+/-- every part `Matrix::partition` hands out has rectangular row slices and a size within the
+    matrix's -/
+theorem partition_parts_rect (m : MatrixMeta) (hm : m.Inv) (rp cp : List Nat)
+    (parts : List MatrixPart) (h : partition m rp cp = .ok parts) :
+    ∀ p ∈ parts, p.Rect ∧ p.rows ≤ m.rows ∧ p.columns ≤ m.columns := by
+  obtain ⟨hparts, hok1, hok2, hok4, hok5⟩ := partition_ok_grid m hm rp cp parts h
+  subst hparts
+  intro p hp
+  obtain ⟨r, hr, c, hc, rfl⟩ := gridSpec_mem m rp cp p hp
+  have hrs : sortedLe (0 :: (rp ++ [m.rows])) = true := by
+    rw [sortedLe_zero_cons, sortedLe_append_singleton _ _ (axisChecked_le hok1)]; exact hok4
+  have hcs : sortedLe (0 :: (cp ++ [m.columns])) = true := by
+    rw [sortedLe_zero_cons, sortedLe_append_singleton _ _ (axisChecked_le hok2)]; exact hok5
+  have hrb := diffs_mem_bound _ 0 m.rows hrs (by
+    intro b hb; simp only [List.mem_append, List.mem_singleton] at hb
+    rcases hb with hb | rfl
+    · exact axisChecked_le hok1 b hb
+    · exact Nat.le_refl _) r hr
+  have hcb := diffs_mem_bound _ 0 m.columns hcs (by
+    intro b hb; simp only [List.mem_append, List.mem_singleton] at hb
+    rcases hb with hb | rfl
+    · exact axisChecked_le hok2 b hb
+    · exact Nat.le_refl _) c hc
+  have hsz := ofSlices_size m.columns r.1 r.2 c.1 c.2
+  simp only [Prod.ext_iff] at hsz
+  have hn := normSize_le r.2 c.2
+  refine ⟨ofSlices_rect _ _ _ _ _, ?_, ?_⟩
+  · rw [hsz.1]; omega
+  · rw [hsz.2]; omega
+
 end EasyMl.MatrixView
